@@ -81,6 +81,10 @@ theorem step_queue (orc : Nat → Nat) (st : State) (op : Op) (o : CQRun.Out)
   | add time val => exact add_queue orc st time val o h
   | cancel k => exact cancel_queue orc st k o h
   | fetch => exact fetch_queue orc st o h
+  | peek =>
+    simp only [step, Out.cq.injEq] at h
+    subst h
+    exact ⟨rfl, rfl⟩
 
 /-- payloads destroyed by `Drop for CQueue` are exactly the pending ones (bucket-resident first) -/
 theorem drop_drops (orc : Nat → Nat) (st : State) :
